@@ -78,9 +78,13 @@ def nontrivial(files, pl, single):
     return False
 
 
-def run_case(run, tf, drv, files, pl, single, via_cli, tag, spelling=None):
+def run_case(run, tf, drv, files, pl, single, via_cli, tag, spelling=None, out_inside=None):
+    if out_inside is None:
+        out_inside = not single and tag == "random" and \
+            (len(files) * 7 + pl // 16384 + len(str(spelling)) + sum(len(b) for _, b in files)) % 5 == 0
     case = {"files": [(rel, b.token()) for rel, b in files], "pl": pl, "single": single,
             "via_cli": via_cli, "gen": tag, "spelling": spelling,
+            "out_inside": bool(out_inside),
             "links": {rel: b.hardlink_of for rel, b in files if getattr(b, "hardlink_of", None)}}
     with sandbox("c01") as box:
         root = os.path.join(box, "payload")
@@ -91,6 +95,8 @@ def run_case(run, tf, drv, files, pl, single, via_cli, tag, spelling=None):
             from harness.props import creation as _cr
             _cr.materialize(box, files, False)
         out = os.path.join(box, "out.torrent")
+        if case.get("out_inside"):
+            out = os.path.join(root, "made-here.torrent")      # does not exist while the tree is read
         spelled, wd = root, None
         if case.get("spelling") and not single:
             spelled, wd = {"trail": (root + "/", None), "dot": (".", root),
@@ -177,7 +183,7 @@ def run(tier, seed, replay=None):
         from harness.props import creation as _cr
         files = _cr.files_of_case(c)
         run_case(run, tf, drv, files, c["pl"], c["single"], c["via_cli"], "replay",
-                 spelling=c.get("spelling"))
+                 spelling=c.get("spelling"), out_inside=bool(c.get("out_inside")))
     else:
         n = 160 if tier == "quick" else 1500
         for i in range(n):
@@ -208,7 +214,7 @@ def run(tier, seed, replay=None):
         from harness.props import creation as _cr
         files = _cr.files_of_case(c)
         run_case(probe, tf, Driver(), files, c["pl"], c["single"], c["via_cli"], "shrink",
-                 spelling=c.get("spelling"))
+                 spelling=c.get("spelling"), out_inside=bool(c.get("out_inside")))
         return any(f.kind == "impl-vs-spec" for f in probe.failures)
     run.shrinker = still_fails
     for (case, impl_pieces, spec_pieces), _, out in cr.settle_createfull(run, drv.run()):
